@@ -600,17 +600,16 @@ func runFED01(r *core.Run) {
 	for i := 0; i < nOps; i++ {
 		ops = append(ops, genFedOp(e.spec, r.W, false, r.W.Prob(0.08)))
 	}
-	var dbg func(i int) []engine.ExecutionOptions
-	if r.Flag("plan") != "" { // debugging aid: the query plan is printed into the history
-		dbg = func(i int) []engine.ExecutionOptions {
-			return []engine.ExecutionOptions{engine.SimWithResolveContext(func(rc *resolve.Context) { rc.ExecutionOptions.IncludeQueryPlanInResponse = true })}
-		}
+	// the query plan travels in the response extensions: it lets the oracle recognise plans whose
+	// fetch dependencies form a cycle (known finding) and is printed with the flag "plan"
+	withPlan := func(i int) []engine.ExecutionOptions {
+		return []engine.ExecutionOptions{engine.SimWithResolveContext(func(rc *resolve.Context) { rc.ExecutionOptions.IncludeQueryPlanInResponse = true })}
 	}
-	execs, out := e.runOps(eng, ops, func(o *fedOp) string { return o.Query }, dbg)
+	execs, out := e.runOps(eng, ops, func(o *fedOp) string { return o.Query }, withPlan)
 	if out == core.OutIdle {
 		r.Fail(prop, "wedge", "", "a request never returned although nothing is runnable")
 	}
-	if dbg != nil {
+	if r.Flag("plan") != "" {
 		for _, x := range execs {
 			r.Hist("PLAN %s", x.w.body())
 		}
@@ -638,7 +637,9 @@ func runFED01(r *core.Run) {
 		want := canonJSON(mustJSON(ref.Data))
 		key := ""
 		if data != want {
-			if sharedKeyFinding(x.op.Query, data, want) {
+			if planHasDependencyCycle(body) {
+				key = "plan-with-cyclic-fetch-dependencies"
+			} else if sharedKeyFinding(x.op.Query, data, want) {
 				key = "below-response-key-shared-by-type-conditions"
 			}
 			r.Fail(prop, "data-mismatch", key, "gateway data differs from the reference monolith\noperation: %s\nvariables: %s\ngateway:  %s\nmonolith: %s\n%s", x.op.Query, x.op.Vars, data, want, e.describe())
@@ -880,4 +881,63 @@ func sharedKeyShape(query string) string {
 		return ""
 	}
 	return "-with-response-key-shared-by-type-conditions"
+}
+
+// planHasDependencyCycle reads the query plan from the response extensions and reports whether the
+// dependsOnFetchIds of its fetches form a cycle.
+func planHasDependencyCycle(body string) bool {
+	var resp struct {
+		Extensions struct {
+			QueryPlan json.RawMessage `json:"queryPlan"`
+		} `json:"extensions"`
+	}
+	if json.Unmarshal([]byte(body), &resp) != nil || len(resp.Extensions.QueryPlan) == 0 {
+		return false
+	}
+	type node struct {
+		Children []*node `json:"children"`
+		Fetch    *struct {
+			FetchID   int   `json:"fetchId"`
+			DependsOn []int `json:"dependsOnFetchIds"`
+		} `json:"fetch"`
+	}
+	var root node
+	if json.Unmarshal(resp.Extensions.QueryPlan, &root) != nil {
+		return false
+	}
+	deps := map[int][]int{}
+	var walk func(n *node)
+	walk = func(n *node) {
+		if n.Fetch != nil {
+			deps[n.Fetch.FetchID] = append(deps[n.Fetch.FetchID], n.Fetch.DependsOn...)
+		}
+		for _, c := range n.Children {
+			walk(c)
+		}
+	}
+	walk(&root)
+	state := map[int]int{} // 1 on the stack, 2 done
+	var visit func(id int) bool
+	visit = func(id int) bool {
+		switch state[id] {
+		case 1:
+			return true
+		case 2:
+			return false
+		}
+		state[id] = 1
+		for _, d := range deps[id] {
+			if visit(d) {
+				return true
+			}
+		}
+		state[id] = 2
+		return false
+	}
+	for id := range deps {
+		if visit(id) {
+			return true
+		}
+	}
+	return false
 }
